@@ -1,2 +1,125 @@
-(* C10 - placeholder while the model is validated against the implementation *)
-From TT Require Import Lib.Base Lib.Bytestr Model.StreamRec Spec.C10 Corr.C10 Proof.C10.
+(* C10 - stream consumers account for every test exactly once.
+   Only statements; every proof is `exact <lemma of Proof/C10.v>`.
+   event / rcd / consume / summarize / s2e_log are the model (Model/StreamRec.v);
+   segments / seg_record / tests / bracket are the specification (Spec/C10.v, DESIGN Appendix A.2).
+   The theorems hold for every representation M of mime types, CT of content types and every
+   parse : option M -> CT; C10's correspondence instantiates them with codes (parse10). *)
+From Coq Require Import String.
+From TT Require Import Lib.Base Lib.Bytestr Gen.Streamtabs Model.StreamRec Spec.C10 Corr.C10 Proof.C10.
+Open Scope list_scope.
+
+(* The model meets the whole statement for every event stream: dicts of StreamToDict, attributes of
+   StreamSummary, log of StreamToExtendedDecorator. *)
+Theorem C10_holds : forall i : input, spec_okb i (model i) = true.
+Proof. exact model_meets_spec. Qed.
+Print Assumptions C10_holds.
+
+(* ... and the executable statement implies the readable one (Spec.C10.Spec). *)
+Theorem C10_statement : forall i o, spec_okb i o = true -> Spec i o.
+Proof. exact spec_okb_sound. Qed.
+Print Assumptions C10_statement.
+
+(* the correspondence compares observations up to alpha = "forget the tags() calls on the extended result" *)
+Theorem C10_obs_eqb : forall a b, obs_eqb a b = true <-> alpha a = alpha b.
+Proof. exact obs_eqb_spec. Qed.
+Print Assumptions C10_obs_eqb.
+
+(* Refinement: over ALL event streams the callbacks of _StreamToTestRecord are the tests of the segment
+   specification, in order - one per final status at the position of that status among the callbacks, the
+   unfinished ones at stopTestRun, last opened first (dict.popitem). *)
+Theorem C10_refines : forall M CT (parse : option M -> CT) (es : list (event M)),
+  consume parse es = tests parse es.
+Proof. exact consume_refines. Qed.
+Print Assumptions C10_refines.
+
+(* Exactly once, part 1 (partition): for every key (test id, route code) the events of the tests reported for
+   that key, concatenated in report order, are exactly the events of that key in stream order. *)
+Theorem C10_partition : forall M (es : list (event M)) (k : key),
+  List.concat (map g_events (filter (of_key k) (segments [] es))) = filter (has_key k) es.
+Proof. exact partition. Qed.
+Print Assumptions C10_partition.
+
+(* Exactly once, part 2 (shape): every reported test has at least one event, all of its own key; a test
+   reported on the way ends with a final status and contains no other; a test reported at stopTestRun
+   contains none; and there is one test of the first kind per id-carrying final-status event. *)
+Theorem C10_shape : forall M (es : list (event M)),
+  Forall seg_ok (segments [] es)
+  /\ List.length (filter (fun g => negb (g_hung g)) (segments [] es))
+     = List.length (filter (fun e => has_id e && is_final (e_status e)) es).
+Proof. exact shape_and_count. Qed.
+Print Assumptions C10_shape.
+
+(* The record of a test, field by field (the model's fold of _update_case equals the declarative record):
+   last status given else unknown; latest tags given else none; timestamp of the first event and of the
+   last one (None when hung); per file name the non-empty chunks joined in arrival order, typed by the first. *)
+Theorem C10_record : forall M CT (parse : option M -> CT) i (seg : list (event M)),
+  let r := fold_left (upd parse) seg (create i (match seg with e :: _ => e_ts e | [] => None end)) in
+  r_id r = i
+  /\ r_status r = last (somes e_status seg) Unknown
+  /\ r_tags r = last (somes e_tags seg) []
+  /\ r_first r = match seg with e :: _ => e_ts e | [] => None end
+  /\ r_last r = last (map e_ts seg) None
+  /\ r_details r = map (file_of parse (chunks seg)) (firsts [] (map (fun c => fst (fst c)) (chunks seg)))
+  /\ hung r = seg_record parse i true seg.
+Proof. exact record_fields. Qed.
+Print Assumptions C10_record.
+
+(* events with test_id None change nothing *)
+Theorem C10_none_ignored : forall M CT (parse : option M -> CT) (es : list (event M)),
+  consume parse es = consume parse (filter has_id es).
+Proof. exact consume_ignores_none. Qed.
+Print Assumptions C10_none_ignored.
+
+(* StreamSummary over any stream: testsRun counts the reported tests that are not 'exists'; each test is in
+   exactly the list its status names; a fail / inprogress / unknown test makes wasSuccessful false. *)
+Theorem C10_summary : forall M CT (parse : option M -> CT) (es : list (event M)),
+  let s := summarize parse es in
+  let ts := tests parse es in
+  let ids p := map r_id (filter (fun r => p (r_status r)) ts) in
+  s_run s = List.length (filter (fun r => negb (status_eqb (r_status r) Exists)) ts)
+  /\ s_errors s = ids failing /\ s_failures s = []
+  /\ s_skipped s = ids (status_eqb Skip) /\ s_xfail s = ids (status_eqb Xfail)
+  /\ s_uxsuccess s = ids (status_eqb Uxsuccess)
+  /\ s_keyerror s = false
+  /\ ((exists r, In r ts /\ failing (r_status r) = true) -> was_successful s = false).
+Proof. exact summary_fields. Qed.
+Print Assumptions C10_summary.
+
+(* StreamToExtendedDecorator = the same consumer after dropping 'exists' events, each test replayed as one
+   time/startTest/time/outcome/stopTest bracket with the tags current at the outcome and its details. *)
+Theorem C10_s2e : forall M CT (parse : option M -> CT) (es : list (event M)),
+  strip (s2e_log parse es) = [LStartRun] ++ flat_map bracket (tests parse (filter not_exists es)) ++ [LStopRun].
+Proof. exact s2e_refines. Qed.
+Print Assumptions C10_s2e.
+
+(* facts about the live tables the model reads (Gen/Streamtabs.v): 'test_status not in INTERIM_STATES' is
+   "a status other than inprogress was given"; _status_map replays 'fail' (and incomplete tests) as addFailure
+   and has an entry for every status but 'exists'; every status has a StreamSummary handler and the list it
+   appends to is the one the statement names. *)
+Theorem C10_tables :
+  (forall st, final st = is_final st)
+  /\ (forall st, outcome_of st = spec_outcome st)
+  /\ (forall st, bucket_of st = Some (spec_bucket st))
+  /\ forallb (fun s => existsb (String.eqb s) summary_keys) ("inprogress"%string :: final_states) = true
+  /\ (forall s, In s final_states <-> exists st, st <> Inprogress /\ status_name st = s).
+Proof. exact tables_ok. Qed.
+Print Assumptions C10_tables.
+
+(* non-vacuity: two tests interleaved, the same id on two routes, an attachment split over three events
+   (one of them empty), an event without id, an event after a final status that opens a new (hung) test *)
+Example C10_example :
+  let e i r s t f ts := @Ev nat (Some i) r s t f (option_map (fun _ => "ab"%string) f) false (Some 1) ts in
+  let es := [ e 1 None (Some Inprogress) None None (Some 1);
+              e 1 (Some 7) (Some Inprogress) (Some [2]) None (Some 2);
+              e 1 None None None (Some 5) (Some 3);
+              @Ev nat None None (Some Fail) None None None false None (Some 9);
+              @Ev nat (Some 1) None None None (Some 5) (Some ""%string) false None None;
+              e 1 None (Some Fail) (Some [3]) (Some 5) (Some 4);
+              e 1 None None None None (Some 5) ] in
+  consume parse10 es
+  = [ Rcd 1 [3] [(5, (1, "abab"%string))] Fail (Some 1) (Some 4);
+      Rcd 1 [] [] Unknown (Some 5) None;
+      Rcd 1 [2] [] Inprogress (Some 2) None ]
+  /\ s_run (summarize parse10 es) = 3 /\ s_errors (summarize parse10 es) = [1; 1; 1]
+  /\ was_successful (summarize parse10 es) = false.
+Proof. vm_compute. repeat split. Qed.
